@@ -118,7 +118,8 @@ def build(case):
     for k, (n, d) in enumerate(DIMS.items()):
         shape = [SIZES[x] for x in d]
         idx = np.indices(shape)
-        val = 8.0 * (3 + 2 * k) + 4.0 * sum((j + 1) * (k + 2) * idx[j] for j in range(len(shape)))
+        # (not whole numbers: a quarter is added, every average and product stays exact in binary)
+        val = 8.0 * (3 + 2 * k) + 4.0 * sum((j + 1) * (k + 2) * idx[j] for j in range(len(shape))) + 0.25
         ds[n] = (d, val)
     coords = {"X": {"center": "xc", "left": "xl", "outer": "xo"}, "Y": {"center": "yc", "left": "yl"},
               "Z": {"center": "zc"}}
@@ -307,6 +308,42 @@ def extra_checks(rng, tier, notes):
     notes.append(f"integrate/average/derivative/metric_weighted relations checked on {n} random arrays")
     out.extend(weighted_forms(rng, tier, notes))
     out.extend(enumeration_tie(notes))
+    out.extend(derivative_named_axes(rng, tier, notes))
+    return out
+
+
+def derivative_named_axes(rng, tier, notes):
+    """derivative is diff divided by the metric OF THAT AXIS at the result's position, whatever the axes are
+    called: several letters, one name a repetition or a prefix of another."""
+    import warnings
+    import numpy as np
+    import xarray as xr
+    from xgcm import Grid
+    out = []
+    n = 0
+    for names in (("lon", "lat"), ("Z", "ZZ"), ("ZZ", "Z"), ("ab", "ba"), ("X", "XX"), ("X", "Y")):
+        a1, a2 = names
+        ds = xr.Dataset(coords={"xc": np.arange(4) + 0.5, "xl": np.arange(4.0), "yc": np.arange(3) + 0.5, "yl": np.arange(3.0)})
+        ds["d1c"], ds["d1l"] = ("xc", np.array([1.0, 2.0, 4.0, 8.0])), ("xl", np.array([0.5, 1.5, 3.0, 6.0]))
+        ds["d2c"], ds["d2l"] = ("yc", np.array([16.0, 32.0, 64.0])), ("yl", np.array([8.0, 24.0, 48.0]))
+        g = Grid(ds, coords={a1: {"center": "xc", "left": "xl"}, a2: {"center": "yc", "left": "yl"}}, periodic=False,
+                 metrics={(a1,): ["d1c", "d1l"], (a2,): ["d2c", "d2l"]}, autoparse_metadata=False)
+        da = xr.DataArray(np.array([[rng.randint(-4, 9) for _ in range(4)] for _ in range(3)], dtype=float), dims=["yc", "xc"])
+        for ax, mname in ((a1, "d1l"), (a2, "d2l")):
+            n += 1
+            rec = {"axes": list(names), "along": ax, "da": da.values.tolist()}
+            try:
+                with warnings.catch_warnings():
+                    warnings.simplefilter("ignore")
+                    d = g.derivative(da, ax, boundary="extend")
+                    ref = g.diff(da, ax, boundary="extend") / ds[mname]
+                ok = set(d.dims) == set(ref.dims) and np.array_equal(d.values, ref.transpose(*d.dims).values)
+                obs = {} if ok else {"derivative": d.values.tolist(), "diff_over_metric": ref.transpose(*d.dims).values.tolist()}
+            except Exception as e:
+                ok, obs = False, {"err": f"{type(e).__name__}: {e}"[:200]}
+            if not ok:
+                out.append((rec, obs, f"derivative along {ax!r} on a grid with axes {names} is not diff divided by that axis' metric"))
+    notes.append(f"{n} derivatives on grids whose axes have several-letter / nested names")
     return out
 
 
